@@ -33,8 +33,30 @@ SYNC_FNS = [
 ]
 
 
+def call_is_self_synced(body, nid, depth=0):
+    """the callee of this write-reaching call fsyncs every device write it makes before it returns normally (so the call
+    needs no fsync after it): lets a write+fsync pair be extracted into a helper without changing any verdict"""
+    prog = body.prog
+    if depth > 2:
+        return False
+    ts = [t for t in prog.targets(body.nodes[nid].ev) if t and t in prog.bodies]
+    if not ts:
+        return False
+    for t in ts:
+        tb = prog.bodies[t]
+        w = [x for x in V.W_REACHING(tb) if not call_is_self_synced(tb, x, depth + 1)]
+        raw = [x for x in w]
+        s = SYNC(tb)
+        if not V.W_REACHING(tb):
+            return False
+        if raw and (not s or not _self_synced(tb, raw, s)):
+            return False
+    return True
+
+
 def _self_synced(body, w, s):
     errs = set(A.error_nodes(body))
+    w = [x for x in w if not call_is_self_synced(body, x)]
     for a in w:
         r, _ps = A.reach(body, A.succs(body, a), blocked_nodes=set(s) | errs)
         if any(x in r for x in body.return_nodes()):
@@ -67,8 +89,12 @@ def check_sync(ctx):
                     sy = [x for x in SYNC(cb) if x != cn.id]
                     R.follow(ctx, inst, cb, [cn.id], sy, "device write (fsync hoisted to the caller) is followed by fsync before a normal return", b_desc="DiskIO::flush")
                 continue
+        w_eff = [x for x in w if not call_is_self_synced(body, x)]
+        if w and not w_eff:
+            ctx.ok(inst, "FOLLOW", body.path, "every device write goes through a callee that fsyncs it before returning", body.where(w[0]))
+            continue
         s = ctx.sites(body, SYNC, inst, floor=1, what="DiskIO::flush / fsync")
-        R.follow(ctx, inst, body, w, s, "device write is followed by fsync before a normal return", b_desc="DiskIO::flush")
+        R.follow(ctx, inst, body, w_eff, s, "device write is followed by fsync before a normal return", b_desc="DiskIO::flush")
     # every other product function that calls a raw write primitive *directly* must be in the table
     # or be one of the leaf writers whose callers are in the table
     inst = "C02.sync/flush-body"
@@ -275,7 +301,8 @@ def check_ack(ctx):
     body = ctx.fn("FeoxStore::flush_all", inst)
     if body is not None:
         ff = ctx.sites(body, R.call("WriteBuffer::force_flush"), inst, exact=1)
-        wm = ctx.sites(body, R.call("DiskIO::write_store_metadata", "DiskIO::write_metadata"), inst, floor=1)
+        # the metadata write, or the call of the helper that performs it
+        wm = ctx.sites(body, R.call("DiskIO::write_store_metadata", "DiskIO::write_metadata") | R.call_reaching("DiskIO::write_store_metadata", within="FeoxStore"), inst, floor=1)
         if ff and wm:
             # on the persistent, initialised path with a write buffer
             R.guard(ctx, inst, body, wm, R.guard_edges_for_call(body, ff, "Ok"),
@@ -661,7 +688,7 @@ def check_drop(ctx):
     else:
         body = bodies[0]
         fs = ctx.sites(body, R.call("WriteBuffer::finish_shutdown", "WriteBuffer::complete_shutdown"), inst, floor=1)
-        wm = ctx.sites(body, R.call("DiskIO::write_store_metadata"), inst, exact=1)
+        wm = ctx.sites(body, R.call("DiskIO::write_store_metadata") | R.call_reaching("DiskIO::write_store_metadata", within="FeoxStore"), inst, exact=1)
         sh = ctx.sites(body, R.call("DiskIO::shutdown"), inst, exact=1)
         # write_buffer is None for memory-only / read-only stores: on the Some edge the drain dominates
         none_edges = A.pred_edges(body, lambda e: (e.has_field("FeoxStore", "write_buffer") or (e.k == "call" and path_matches(e.extra, "Option::take"))), "None")
